@@ -10,13 +10,12 @@
             asn1c_emit_constraint_checking_code): the range handed over by
             libasn1fix/asn1fix_crange.c (Fix.Crange.range_union = _range_canonicalize of
             the union; EXCEPT is dropped there), the "MIN..MAX => nothing to check"
-            drop, the C type chosen by asn1c_type_fits_long, native_long_sign, the
-            unsigned-long shortcut, asn_INTEGER2long's "value too large", and
+            drop (single interval only), the C type chosen by asn1c_type_fits_long, native_long_sign,
+            asn_INTEGER2long's "value too large", and
             emit_range_comparison_code's or-of-ands with its natural_start/stop
             elisions;
           - the walkers SEQUENCE_constraint (members in order, first failure wins,
-            absent optional skipped, missing mandatory fails, and the `return` taken
-            at the first present member that has no checker of its own),
+            absent optional skipped, missing mandatory fails),
             CHOICE_constraint, SET_OF_constraint (every element);
           - where the SIZE of a SEQUENCE OF / SET OF is checked at all: only in the
             memb_*_constraint_N function of a member slot and in the checker generated
@@ -144,15 +143,11 @@ Definition fits_long (w : bool) (l r : edge) : ikind :=
   else if negb (is_val l && is_val r) && w then KWide           (* "if the range is open, fits only unless -fwide-types" *)
   else KLong.
 
-(* native_long_sign: 1 = compare as unsigned long, 0 = "the whole unsigned long", -1 = long *)
+(* native_long_sign: 1 = compare as unsigned long, -1 = long *)
 Definition long_sign (w : bool) (c : crange) : Z :=
   let '(l, r, els) := c in
   if is_val l && (0 <=? edge_val l) && (edge_val l <=? two31m1) && is_max r && negb w then 1
-  else if is_val l && (0 <=? edge_val l) && is_val r && (two31m1 <? edge_val r) && (edge_val r <=? two32m1) then
-    (match els with
-     | [] => if (edge_val l =? 0) && (edge_val r =? two32m1) then 0 else 1
-     | _ => 1
-     end)
+  else if is_val l && (0 <=? edge_val l) && is_val r && (two31m1 <? edge_val r) && (edge_val r <=? two32m1) then 1
   else -1.
 
 (* one interval's comparison text *)
@@ -175,6 +170,7 @@ Definition emit1 (nstart nstop : option Z) (p : ipair) : option cmp :=
   else if edge_val (fst p) =? edge_val (snd p) then Some (CEq (edge_val (snd p)))
   else Some (CBetween (edge_val (fst p)) (edge_val (snd p))).
 
+Definition nonnil {A} (l : list A) : bool := match l with [] => false | _ => true end.
 Definition opt_list {A} (o : option A) : list A := match o with Some a => [a] | None => [] end.
 
 (* the whole text: a disjunction; [] = empty text *)
@@ -222,21 +218,19 @@ Definition int_check (w : bool) (ps : parts) (z : Z) : res :=
   | None => ROk
   | Some c =>
       let '(l, r, els) := c in
-      if is_min l && is_max r then ROk                       (* r_value dropped *)
+      if is_min l && is_max r && negb (nonnil els) then ROk  (* r_value dropped: the single interval MIN..MAX *)
       else
         let sg := long_sign w c in
-        if sg =? 0 then ROk                                   (* ulong_optimize: return 0 *)
+        let readable :=
+          if needs_read w c then (if 0 <=? sg then uint64 z else int64 z)   (* asn_INTEGER2ulong / asn_INTEGER2long *)
+          else true in
+        if negb readable then RFail WTooLarge
         else
-          let readable :=
-            if needs_read w c then (if 0 <=? sg then uint64 z else int64 z)   (* asn_INTEGER2ulong / asn_INTEGER2long *)
-            else true in
-          if negb readable then RFail WTooLarge
-          else
-            let value := if is_kwide (fits_long w l r) && sign_shortcut c then sign_of z else z in
-            match emit (if 0 <? sg then Some 0 else None) None c with
-            | [] => ROk                                         (* no applicable constraints whatsoever *)
-            | txt => if eval value txt then ROk else RFail WConstraint
-            end
+          let value := if is_kwide (fits_long w l r) && sign_shortcut c then sign_of z else z in
+          match emit (if 0 <? sg then Some 0 else None) None c with
+          | [] => ROk                                         (* no applicable constraints whatsoever *)
+          | txt => if eval value txt then ROk else RFail WConstraint
+          end
   end.
 
 (* the generated SIZE test (size_t size; natural_start 0); "nothing to check" is ROk *)
@@ -245,7 +239,7 @@ Definition size_check (sz : parts) (n : Z) : res :=
   | None => ROk
   | Some c =>
       let '(l, r, els) := c in
-      if (edge_val l =? 0) && is_max r then ROk               (* r_size dropped *)
+      if (edge_val l =? 0) && is_max r && negb (nonnil els) then ROk   (* r_size dropped: the single interval 0..MAX *)
       else
         match emit (Some 0) None c with
         | [] => ROk
@@ -254,17 +248,6 @@ Definition size_check (sz : parts) (n : Z) : res :=
   end.
 
 (* ------------------------------------------------------------------ Model: walkers *)
-Definition strip_opt (t : cty) : cty := match t with COpt t' => t' | _ => t end.
-Definition nonnil {A} (l : list A) : bool := match l with [] => false | _ => true end.
-(* expr->constraints != NULL at the member: a memb_<name>_constraint_<n> function exists *)
-Definition has_own (t : cty) : bool :=
-  match strip_opt t with
-  | CInt ps exc => nonnil ps
-  | COct sz => nonnil sz
-  | CSeqOf sz _ => nonnil sz
-  | _ => false
-  end.
-
 (* SEQUENCE_constraint *)
 Definition is_copt (t : cty) : bool := match t with COpt _ => true | _ => false end.
 Definition walk_members (f : cty -> val -> res) : list cty -> list val -> res :=
@@ -276,9 +259,7 @@ Definition walk_members (f : cty -> val -> res) : list cty -> list val -> res :=
         | VNone => if is_copt m then go ms' vs'                (* absent OPTIONAL: continue *)
                    else RFail WAbsent                          (* mandatory element absent *)
         | _ =>
-            if has_own m then
-              match f m v with ROk => go ms' vs' | e => e end
-            else f m v                                         (* `return elm->type->...general_constraints(...)` *)
+            match f m v with ROk => go ms' vs' | e => e end     (* the member's own checker, else its type's; first failure wins *)
         end
     | _, _ => RFail WShape
     end.
@@ -335,8 +316,6 @@ Definition int_safe_core (w : bool) (ps exc : parts) : bool :=
   | None => true
   | Some c =>
       let '(l, r, els) := c in
-      negb (is_min l && is_max r && nonnil els) &&             (* (MIN..a | b..MAX): dropped as if MIN..MAX *)
-      negb (long_sign w c =? 0) &&                             (* (0..4294967295): unsigned long is 64 bit here *)
       forallb (has_text (if 0 <? long_sign w c then Some 0 else None)) els
   end.
 (* a range read through asn_INTEGER2long has only finite parts inside 64 bits (so that a value
@@ -352,16 +331,7 @@ Definition size_safe (sz : parts) : bool :=
   forallb wfpb sz && forallb (fun p => is_val (fst p) && (0 <=? edge_val (fst p))) sz &&
   match crange_of sz with
   | None => true
-  | Some c => let '(l, r, els) := c in
-              negb ((edge_val l =? 0) && is_max r && nonnil els) && forallb (has_text (Some 0)) els
-  end.
-
-(* every member but the last carries a checker of its own *)
-Fixpoint own_but_last (ms : list cty) : bool :=
-  match ms with
-  | [] => true
-  | [_] => true
-  | m :: r => has_own m && own_but_last r
+  | Some c => let '(l, r, els) := c in forallb (has_text (Some 0)) els
   end.
 
 (* OPTIONAL occurs only as a direct member of a SEQUENCE, not behind a reference *)
@@ -373,7 +343,7 @@ Fixpoint safe (w : bool) (t : cty) (slot : bool) {struct t} : bool :=
   | CBool | CNull => true
   | CInt ps exc => int_safe w ps exc
   | COct sz => size_safe sz
-  | CSeq ms => own_but_last ms && forallb (fun m => safe w m true) ms
+  | CSeq ms => forallb (fun m => safe w m true) ms
   | CSeqOf sz e => size_safe sz && (slot || negb (nonnil sz)) && safe w e true
   | CChoice alts => forallb (fun a => safe w a true) alts
   | CRef g t' => opt_free_head t' && safe w t' g
